@@ -91,4 +91,11 @@ def obligations(tier, ctx):
                           pre=[f"0 <= k < {nsz}", ("mi in (1, 3)" if where in (0, 4) else "mi in (0, 1)" if where == 2 else "mi == 3"), ("hsel in (0, 6)" if where != 4 else "hsel in (6, 7)")],
                           call=f"H.dispatch_long(mi, k, {pat}, {where}, hsel)", backend="P", timeout=900,
                           family="size: id / tool argument / tool name or uri / method name / exception text of c-1, c, c+1 characters"))
+    from harness_sizes_n import N_TEXTS
+    for where in range(6):
+        for be in (("P",) if tier == "quick" else ("P", "F")):
+            obs.append(Ob(name=f"text_w{where}_{be}", params=[("i", "int"), ("mi", "int"), ("hsel", "int"), ("has", "bool")],
+                          pre=[f"0 <= i < {N_TEXTS}", ("mi in (1, 3)" if where in (0, 4, 5) else "mi in (0, 1)" if where == 2 else "mi == 3"), ("hsel in (0, 6)" if where != 4 else "hsel in (6, 7)")] + (["has"] if where == 0 else []),
+                          call=f"H.dispatch_text(mi, i, {where}, hsel, has)", backend=be, timeout=600,
+                          family="content corpus: id / tool argument / tool name or uri / method name / exception text that is 'active' text (templates, separators, control and zero-width characters, JSON-looking)"))
     return obs
